@@ -62,6 +62,17 @@ type family struct {
 	spec   map[uint64]string
 	shapes []shape
 	decode func(b []byte) (string, error)
+	// wrap embeds the tagged list into the structure the decoder expects (nil = the list itself)
+	wrap func(*vh.Item) *vh.Item
+	// firstAccepted: the shapes are candidates; per id only the first one accepted in minimal form is used
+	firstAccepted bool
+}
+
+func (f family) full(it *vh.Item) []byte {
+	if f.wrap != nil {
+		return f.wrap(it).Enc()
+	}
+	return it.Enc()
 }
 
 func h(n int, fill byte) *vh.Item {
@@ -95,7 +106,7 @@ func families() []family {
 					return "", err
 				}
 				return trimType(ns.Item()), nil
-			}},
+			}, nil, false},
 		{"certificate",
 			map[uint64]string{0: "StakeRegistrationCertificate", 1: "StakeDeregistrationCertificate", 2: "StakeDelegationCertificate",
 				3: "PoolRegistrationCertificate", 4: "PoolRetirementCertificate", 5: "GenesisKeyDelegationCertificate",
@@ -118,7 +129,7 @@ func families() []family {
 					return "", err
 				}
 				return trimType(w.Certificate), nil
-			}},
+			}, nil, false},
 		{"nonce",
 			map[uint64]string{0: "NonceTypeNeutral", 1: "NonceTypeNonce"},
 			[]shape{{0, nil}, {1, []*vh.Item{h(32, 5)}}},
@@ -128,7 +139,7 @@ func families() []family {
 					return "", err
 				}
 				return map[uint]string{0: "NonceTypeNeutral", 1: "NonceTypeNonce"}[n.Type], nil
-			}},
+			}, nil, false},
 		{"drep",
 			map[uint64]string{0: "DrepTypeAddrKeyHash", 1: "DrepTypeScriptHash", 2: "DrepTypeAbstain", 3: "DrepTypeNoConfidence"},
 			[]shape{{0, []*vh.Item{h(28, 5)}}, {1, []*vh.Item{h(28, 6)}}, {2, nil}, {3, nil}},
@@ -138,7 +149,7 @@ func families() []family {
 					return "", err
 				}
 				return map[int]string{0: "DrepTypeAddrKeyHash", 1: "DrepTypeScriptHash", 2: "DrepTypeAbstain", 3: "DrepTypeNoConfidence"}[d.Type], nil
-			}},
+			}, nil, false},
 		{"gov-action",
 			map[uint64]string{0: "ConwayParameterChangeGovAction", 1: "HardForkInitiationGovAction", 2: "TreasuryWithdrawalGovAction",
 				3: "NoConfidenceGovAction", 4: "UpdateCommitteeGovAction", 5: "NewConstitutionGovAction", 6: "InfoGovAction"},
@@ -150,7 +161,7 @@ func families() []family {
 					return "", err
 				}
 				return trimType(g.Action), nil
-			}},
+			}, nil, false},
 		{"peer-address",
 			map[uint64]string{0: "IPv4", 1: "IPv6"},
 			[]shape{{0, []*vh.Item{vh.U(0x0100007f), vh.U(3001)}}, {1, []*vh.Item{vh.U(1), vh.U(2), vh.U(3), vh.U(4), vh.U(3001)}}},
@@ -166,7 +177,7 @@ func families() []family {
 					return "IPv6", nil
 				}
 				return "?", nil
-			}},
+			}, nil, false},
 		{"datum-option",
 			map[uint64]string{0: "DatumOptionTypeHash", 1: "DatumOptionTypeData"},
 			[]shape{{0, []*vh.Item{h(32, 2)}}, {1, []*vh.Item{vh.TagOf(24, vh.B([]byte{0x05}))}}},
@@ -185,7 +196,7 @@ func families() []family {
 					return "?", nil
 				}
 				return map[uint64]string{0: "DatumOptionTypeHash", 1: "DatumOptionTypeData"}[it.Xs[0].N], nil
-			}},
+			}, nil, false},
 	}
 }
 
